@@ -49,7 +49,10 @@ def sh(cmd, timeout=None, cwd=None, mem=MEM_LIMIT):
                            preexec_fn=lim)
         return p.returncode, p.stdout, p.stderr, time.time() - t0
     except subprocess.TimeoutExpired as e:
-        return -9, e.stdout or '', 'TIMEOUT after %ss' % timeout, time.time() - t0
+        so = e.stdout or ''
+        if isinstance(so, bytes):
+            so = so.decode('utf-8', 'replace')
+        return -9, so, 'TIMEOUT after %ss' % timeout, time.time() - t0
 
 
 # --------------------------------------------------------------------------- build of the verified text
@@ -148,6 +151,11 @@ def classify(r, unit, tags):
         ob['cls'] = 'post' if '.precondition.' not in pid else 'pre'
         if tagged:
             ob['props'], ob['tag'], ob['clause'] = tagged
+            if '__CPROVER_' not in tagged[2]:
+                # contract generated by a macro: all its clauses share one source line; keep them apart by ordinal
+                m = re.search(r'\.(postcondition|precondition|assertion)\.(\d+)$', pid)
+                if m:
+                    ob['tag'] = '%s#%s%s' % (tagged[1], m.group(1)[:4], m.group(2))
         else:
             ob['props'], ob['tag'], ob['clause'] = unit['props'].get('untagged', unit['serves']), \
                 'L%d' % line, desc
